@@ -1,6 +1,7 @@
 import CogentModel.Json
 import CogentModel.Model.Splitlines
 import CogentModel.Model.SeqFormats
+import CogentModel.Spec.SeqRecords
 open CogentModel CogentModel.Splitlines CogentModel.SeqFormats
 
 def errStr : Err → String
@@ -58,6 +59,12 @@ def handle (cmd : String) (j : J) : Except String J :=
                                 J.arr ((splitWs (← getStr j "s")).map strJ)])
   | "int" => do pure (exJ J.num (pyInt (← getStr j "s")))
   | "digits" => do pure (strJ (natDigits (← (← j.get "n").toNat)))
+  | "spec" => do
+    -- the specification side (Spec/SeqRecords.lean): well-formedness predicates used as theorem hypotheses, `truncName`
+    let s ← getStr j "s"
+    let lc ← getStr j "lc"
+    pure (J.obj [("wfName", J.bool (SeqSpec.wfName s)), ("wfSeq", J.bool (SeqSpec.wfSeq lc s)),
+                 ("noLower", J.bool (SeqSpec.noLower s)), ("truncName", strJ (SeqSpec.truncName s))])
   | _ => throw s!"unknown command {cmd}"
 
 def main : IO Unit := driverLoop handle
